@@ -2,6 +2,9 @@ package rules
 
 import (
 	"fmt"
+	"go/types"
+
+	"golang.org/x/tools/go/ssa"
 
 	"cvsslint/internal/facts"
 	"cvsslint/internal/load"
@@ -26,6 +29,10 @@ var dataTablesOf = map[string][]string{
 	"C12": {"v3/metric", "v2/metric"}, "C13": {"v3/metric", "v2/metric"},
 	"C17": {"v3/report/names", "v3/metric"},
 }
+
+// sentinelUsers: properties whose rules rely on the sentinels being non-nil, distinct and immutable
+// (errs.Wrap(sentinel) is a non-nil error; a rejection "with an error"; errors.Is matches exactly one sentinel).
+var sentinelUsers = map[string]bool{"C07": true, "C08": true, "C10": true, "C12": true, "C19": true}
 
 func (e *Env) tableImmutabilityOf(rule string, dataOnly bool, pkgs ...string) {
 	only := map[string]bool{}
@@ -79,6 +86,50 @@ func (e *Env) tableImmutabilityOf(rule string, dataOnly bool, pkgs ...string) {
 			}
 			bad[key] = true
 			e.C.Fail(rule, key, e.P.Pos(w.Pos), "package-level variable modified after initialisation: "+ef.Describe(w))
+		}
+	}
+	// a reference to a table stored into other non-local memory (a field of another package-level variable, of a
+	// parameter) makes that memory an alias: writes through it are writes to the table, and they are not attributed
+	// to it above. Such stores are reported themselves.
+	for _, fn := range ef.All {
+		for _, b := range fn.Blocks {
+			for _, in := range b.Instrs {
+				st, ok := in.(*ssa.Store)
+				if !ok {
+					continue
+				}
+				if _, isMap := st.Val.Type().Underlying().(*types.Map); !isMap {
+					continue
+				}
+				// the table's own initialisation: *G = <fresh map>
+				if g, ok := st.Addr.(*ssa.Global); ok {
+					if _, fresh := st.Val.(*ssa.MakeMap); fresh && g.Pkg == fn.Pkg {
+						continue
+					}
+				}
+				nonLocal := false
+				for _, r := range ef.Roots(st.Addr) {
+					if r.Kind != facts.RLocal && r.Kind != facts.RNone {
+						nonLocal = true
+					}
+				}
+				if !nonLocal {
+					continue
+				}
+				for _, r := range ef.Roots(st.Val) {
+					if r.Kind != facts.RGlobal || !load.IsModule(r.Global.Pkg.Pkg.Path()) {
+						continue
+					}
+					if len(only) > 0 && !only[r.Global.Pkg.Pkg.Path()] {
+						continue
+					}
+					key := fmt.Sprintf("%s.%s aliased in %s", load.Rel(r.Global.Pkg.Pkg.Path()), r.Global.Name(), fn.String())
+					if !bad[key] {
+						bad[key] = true
+						e.C.Fail(rule, key, e.P.Pos(st.Pos()), "a reference to this table is stored in other memory: whatever is written through that alias modifies the table")
+					}
+				}
+			}
 		}
 	}
 	// one obligation per package-level variable of the library packages
